@@ -9,7 +9,7 @@ import common
 import trans
 from common import REPO
 
-WORDS = ("the quick brown fox jumps over lazy dog Hello WORLD 123 4.5 don't a-b x and for of with "
+WORDS = ("the quick brown fox jumps over lazy dog Hello WORLD 123 4.5 don't a-b x and for of with to by into in was were his be it as but "
          "child shall this which out still word rather Braille 2nd 10:30 e.g. (test) [x] {y} * + = _ / \\ \" ' ` ~ # $ % & @ ^ |").split()
 POOL = [32, 32, 97, 98, 99, 65, 66, 49, 50, 46, 44, 45, 39, 10, 9, 0x2801, 0x28ff, 0xffff, 0x20ac, 0xe9, 0x3b1, 0x4e2d, 0xfffe, 1, 127, 160]
 MODEBITS = [1, 2, 4, 32, 64, 128, 256]
@@ -46,6 +46,22 @@ def gen_runs(rng, maxlen=40):
     return out[:maxlen] or [45]
 
 
+FUNCTION_WORDS = "to by into and for of the with a in was were his be it as but not you that".split()
+
+
+def gen_sentence(rng, maxlen=40):
+    """short words that contracted-braille tables treat specially (joined to the next word, large signs, whole-word
+    contractions), each followed by an ordinary word"""
+    ws = []
+    for _ in range(rng.range(1, 4)):
+        ws.append(rng.choice(FUNCTION_WORDS))
+        if rng.chance(0.8):
+            ws.append(rng.choice(WORDS))
+    s = " ".join(ws)
+    inp = [ord(c) for c in s][:maxlen]
+    return capitalise(rng, inp) if rng.chance(0.3) else inp
+
+
 def gen_poison_probe(rng):
     """a long homogeneous input followed by shorter inputs that end inside a run of the same character: whatever reads behind
     the end of a pass input then sees characters that continue the run"""
@@ -58,9 +74,11 @@ def gen_poison_probe(rng):
 
 
 def gen_input(rng, maxlen=40):
-    k = rng.below(7)
+    k = rng.below(8)
     if k == 6:
         return gen_runs(rng, maxlen)
+    if k == 7:
+        return gen_sentence(rng, maxlen)
     if k == 0:
         s = " ".join(rng.choice(WORDS) for _ in range(rng.range(1, 8)))
         inp = [ord(c) for c in s][:maxlen]
